@@ -1,7 +1,7 @@
 (* Property C17 — turmoil-net binds and routes packets like a real socket table.
    Statements only; proofs in C17_proofs.v.  DESIGN.md section 5 (C17). *)
 From TV.Lib Require Import Base.
-From TV.NetPure Require Import Gen Ip Sock C17_proofs.
+From TV.NetPure Require Import Gen Ip Sock SockRun C17_proofs.
 Open Scope N_scope.
 
 (* ---- bind ---------------------------------------------------------------------- *)
@@ -145,6 +145,37 @@ Theorem egress_keeps_local_traffic_inside : forall fuel k,
   Forall (fun p => is_local (k_addrs k) (p_dst p) = false) (snd (kegress_k fuel k)).
 Proof. exact kegress_nonlocal. Qed.
 
+(* ---- the index is the set of live sockets, in every reachable state ---------------------------- *)
+(* sock_wf: fds unique and below next_id; binding keys unique with non-empty
+   groups; fd is listed under key iff a socket fd exists whose `bound` is key;
+   the allocator cursor stays inside the ephemeral range.  It holds in every
+   kernel of every Net reachable through the harness alphabet (bind, listen,
+   connect, poll, accept, close, UDP connect/send, raw packets through the
+   fabric, egress, pump, reads), for all scripts. *)
+Theorem table_describes_live_sockets : forall addrs es,
+  Forall ev_ok es -> Forall sock_wf (n_hosts (nfold (net0 addrs) es)).
+Proof. exact wf_reachable. Qed.
+
+(* hence the conflict check of bind is a check against the live sockets *)
+Theorem bind_conflict_is_with_a_live_socket : forall k key, sock_wf k ->
+  (Conflicts k key <->
+   exists fd s key', get k fd = Some s /\ s_bound s = Some key' /\
+     b_dom key' = b_dom key /\ b_ty key' = b_ty key /\ b_port key' = b_port key /\
+     (b_addr key' = b_addr key \/ is_unspec (b_addr key') = true \/ is_unspec (b_addr key) = true)).
+Proof. exact conflicts_live. Qed.
+
+Theorem bind_ok_iff_live : forall addrs es h a port t, Forall ev_ok es -> port <> 0 ->
+  let k := kern_at (nfold (net0 addrs) es) h in
+  let key := mkkey (dom_of a) t a port in
+  (snd (bind k a port t) = inr (k_nextfd k, port) <->
+   addr_ok k a /\ ~ exists fd s key', get k fd = Some s /\ s_bound s = Some key' /\ Overlap key' key).
+Proof.
+  intros addrs es h a port t He Hp k key.
+  assert (Hw : sock_wf k) by (apply wf_kern_at, wf_reachable, He).
+  destruct (bind_ok_iff_lemma k a port t Hp) as (H1 & _). fold key in H1. rewrite H1.
+  now rewrite (conflicts_live k key Hw).
+Qed.
+
 (* ---- non-vacuity ---------------------------------------------------------------------------------- *)
 Definition A1 := V4 167772161. (* 10.0.0.1 *)  Definition A2 := V4 167772162. Definition W4 := V4 0.
 Definition k_ex : kern := fst (bind (fst (bind (kern0 [A1; A2]) A1 5000 Dgram)) W4 6000 Dgram).
@@ -172,4 +203,7 @@ Print Assumptions udp_demux.
 Print Assumptions tcp_demux_rule.
 Print Assumptions fabric_route.
 Print Assumptions egress_keeps_local_traffic_inside.
+Print Assumptions table_describes_live_sockets.
+Print Assumptions bind_conflict_is_with_a_live_socket.
+Print Assumptions bind_ok_iff_live.
 Print Assumptions c17_nonvacuous.
